@@ -419,10 +419,19 @@ def main(prop, run, level="proof", lean_module=None, search=None, argv=None):
             # a finding, not an infrastructure failure; anything else is re-raised (exit 2)
             tb = traceback.extract_tb(ex.__traceback__)
             in_impl = [f for f in tb if os.path.realpath(f.filename).startswith(os.path.realpath(os.path.join(REPO, "src")))]
-            if not in_impl:
+            if isinstance(ex, common.DriverError) and common.generated_changed():
+                # the model regenerated from CHANGED source crashes or does not answer in time: the correspondence no longer
+                # checks; go on to the failing-input search (decide) instead of calling it infrastructure
+                ctx.tie_breaks.append({"stage": "model-driver (regenerated tables differ from the committed baseline)",
+                                       "replay": {"error": str(ex)[:400], "changed_tables": [
+                                           f for f, h in common.generated_digests().items()
+                                           if h != json.load(open(os.path.join(VERIF, "harness", "generated_baseline.json"))).get(f)]}})
+                in_impl = None
+            elif not in_impl:
                 raise
             where = [f"{os.path.basename(f.filename)}:{f.lineno} {f.name}" for f in tb[-6:]]
-            ctx.violation(f"the implementation raised {type(ex).__name__}: {str(ex)[:160]} during a step the check expects to succeed ({where[-1]})",
+            if in_impl is not None:
+                ctx.violation(f"the implementation raised {type(ex).__name__}: {str(ex)[:160]} during a step the check expects to succeed ({where[-1]})",
                           {"exception": repr(ex)[:400], "traceback": where})
         if ctx.tier == "thorough" and not child and not ctx.new_violations():
             flag_rerun(ctx, prop)
